@@ -195,6 +195,8 @@ def classify(F, v):
                 return "loose", "invalid-utf8-text"
             if V.is_int(x) and not isinstance(x, bool) and not (I64_MIN <= V.ival(x) <= I64_MAX):
                 return "loose", "bigint"
+            if isinstance(x, Dec) and math.isinf(V.dec_to_float(x.text)):
+                return "loose", "decimal-literal-beyond-f64"
         return "in", ""
     # csv / tsv
     if not isinstance(v, list):
@@ -468,7 +470,8 @@ def independent(F, v, cls, written):
                 return name, ("reader-differs", repr(rows)[:300])
         return name, None
     except Malformed as e:
-        return "reader", ("reader-rejects", str(e))
+        return {"cbor": "rfc8949-decoder", "toml": "tomllib", "csv": "csv"}.get(F, "csv(tab,no quoting)+unescape"), \
+            ("reader-rejects:" + err_class(e), str(e))
 
 
 # =========================================================================================
@@ -525,7 +528,8 @@ BYTES_ATOMS = [b"", b"a", b"\x00", b"\xff", b"\xff\xfe", b"a\xffb", b"\x00\x01\x
                b"\n", b" ", b"YQ==", bytes(range(256)), b"a" * 57, b"ab" * 40]
 INVALID_TEXT = [b"\xff", b"a\xffb", b"\xc3", b"\xed\xa0\x80", b"\xf4\x90\x80\x80", b"\xe2\x82", b"\xc0\xaf", b"a\x80",
                 b"\xf0\x9f\x98", b"+1\xff"]
-XJON_DECS = [Dec("007.5"), Dec("+7.1"), Dec("-042.0"), Dec("+1e2"), Dec("00e0"), Dec("+0.0")]
+# spellings only XJON has and jaq's own reader produces as decimal literals (checked by hand)
+XJON_DECS = [Dec("007.5"), Dec("+7.1"), Dec("+1e2"), Dec("+0.0")]
 EXTRA_FLOATS = [1e-5, 1e-6, 123456.789, 1e100, 2.0 ** 70, -2.0 ** 70, 65504.0, 65536.0, 5.960464477539063e-08, 6.103515625e-05,
                 3.4028234663852886e38, 1.401298464324817e-45, 0.1 + 0.2, 1 / 3, 100000.0, 16777216.0, 16777217.0]
 EXTRA_INTS = [23, 24, 25, -24, -25, -26, 65535, 65536, -256, -257, -65536, -65537, 2 ** 32 - 1, -(2 ** 32), -(2 ** 32) - 1,
@@ -541,7 +545,13 @@ def numbers(xjon=False):
     return out
 
 
+YAML_CORE = """null Null ~ true True no on .inf .Inf -.inf +.inf .nan 0 1 -1 +1 .5 +.5 1. 1e3 +1e3 0x1F +0x1F 0o7 +0o7 1_000 12:30:45
+2001-12-14 --- ... - ? : # & * ! | > ' " % @ ` , [ ] { } a a:b a# << = \\""".split()
+
+
 def yaml_strings():
+    """every word alone, with each prefix and with each suffix; the core words with every
+    prefix x suffix combination; the phrases"""
     out = []
     seen = set()
 
@@ -550,6 +560,11 @@ def yaml_strings():
             seen.add(s)
             out.append(s)
     for w in YAML_WORDS:
+        for p in YAML_PREFIX:
+            add(p + w)
+        for q in YAML_SUFFIX:
+            add(w + q)
+    for w in YAML_CORE:
         for p in YAML_PREFIX:
             for q in YAML_SUFFIX:
                 add(p + w + q)
@@ -825,6 +840,21 @@ def via_fmt(c, F, v, mode):
     return ("ok", w, [dec(x) for x in r2["vals"]])
 
 
+ERR_TAIL = re.compile(r" as (?:YAML|TOML|CBOR|XML|CSV|TSV): ")
+
+
+def err_class(msg):
+    """the reason of an error message without the echoed input, positions and numbers (so that a
+    failure keeps its class while its input is being minimised, and across the three paths)"""
+    m = str(msg)
+    hits = list(ERR_TAIL.finditer(m))
+    if hits:
+        m = m[hits[-1].end():]
+    m = re.sub(r"\\u0022.*?\\u0022|\"[^\"]*\"|'[^']*'", "", m)
+    m = re.sub(r"[^A-Za-z ]+", " ", m)
+    return " ".join(m.split()[:6])
+
+
 def judge(F, v, cls, reason, outcome):
     """-> None or (code, detail). code is the failure class used while minimising."""
     kind, written, x = outcome
@@ -836,9 +866,9 @@ def judge(F, v, cls, reason, outcome):
         return None
     if cls == "in":
         if kind == "werr":
-            return ("write-error", x)
+            return ("write-error:" + err_class(x), x)
         if kind == "rerr":
-            return ("read-error", x)
+            return ("read-error:" + err_class(x), x)
         if len(x) != 1:
             return ("count-%d" % len(x), show(x, 300))
         if not same(v, x[0]):
@@ -876,6 +906,14 @@ def diff_kind(a, b):
 # =========================================================================================
 # minimisation against the real implementation -> canonical keys
 
+def _rank(ch):
+    if ch in b"1 ":
+        return 0
+    if ch == 0x61:
+        return 1
+    return 2 if (48 <= ch < 58 or 65 <= ch < 91 or 97 <= ch < 123) else 3
+
+
 def measure(v):
     n = 0
     s = 0
@@ -884,14 +922,14 @@ def measure(v):
         n += 1
         if isinstance(x, Str):
             s += len(x.b)
-            for ch in x.b:
-                rank += 0 if ch in b"a1" else 1 if (48 <= ch < 58 or 65 <= ch < 91 or 97 <= ch < 123) else 2
+            rank += sum(_rank(ch) for ch in x.b)
         elif isinstance(x, (int, Big)) and not isinstance(x, bool):
             rank += min(abs(V.ival(x)), 10 ** 6)
     return (n, s, rank)
 
 
 def str_candidates(s):
+    """delete one character; replace a character by '1', by 'a', a tab by a blank"""
     try:
         t = s.b.decode("utf-8")
     except UnicodeDecodeError:
@@ -899,10 +937,12 @@ def str_candidates(s):
     for i in range(len(t)):
         yield S(t[:i] + t[i + 1:])
     for i, ch in enumerate(t):
-        if ch.isascii() and ch.isalpha() and ch != "a":
-            yield S(t[:i] + "a" + t[i + 1:])
-        elif ch.isascii() and ch.isdigit() and ch != "1":
+        if ch == "\t":
+            yield S(t[:i] + " " + t[i + 1:])
+        elif ch not in "1 ":
             yield S(t[:i] + "1" + t[i + 1:])
+            if ch != "a":
+                yield S(t[:i] + "a" + t[i + 1:])
 
 
 def sub_candidates(F, v):
@@ -939,15 +979,15 @@ def sub_candidates(F, v):
             yield Str(v.b[:i] + v.b[i + 1:], False)
 
 
-def minimise(F, v, fails, budget=600):
-    """greedy descent; fails(candidate) re-executes the real implementation"""
+def minimise(F, v, first_failing, budget=800):
+    """greedy descent; first_failing(candidates) re-executes the real implementation on a batch
+    and returns the index of the first candidate that still fails in the same way (or None)"""
     cur = v
     m = measure(cur)
     seen = set()
     steps = 0
-    progress = True
-    while progress and steps < budget:
-        progress = False
+    while steps < budget:
+        cands = []
         for cand in sub_candidates(F, cur):
             mc = measure(cand)
             if not mc < m:
@@ -956,13 +996,18 @@ def minimise(F, v, fails, budget=600):
             if fz in seen:
                 continue
             seen.add(fz)
-            steps += 1
-            if steps > budget:
+            cands.append((cand, mc))
+        hit = None
+        for lo in range(0, len(cands), 24):
+            chunk = cands[lo:lo + 24]
+            steps += len(chunk)
+            i = first_failing([x for x, _ in chunk])
+            if i is not None:
+                hit = chunk[i]
                 break
-            if fails(cand):
-                cur, m = cand, mc
-                progress = True
-                break
+        if hit is None:
+            break
+        cur, m = hit
     return cur
 
 
@@ -1031,13 +1076,17 @@ def value_task(t):
                 if nontrivial(F, v):
                     st["digests"].add(digest(F, v))
                 results = [("filter", out)]
-                for mode in MODES[F]:
+                modes = MODES[F]
+                if len(modes) > 3:      # always -c and default; the -j variants in rotation
+                    modes = modes[:2] + [modes[2 + (lo + j) % (len(modes) - 2)]]
+                for mode in modes:
                     results.append((mode[0], via_fmt(c, F, v, mode)))
-                seen_written = set()
                 for path, o in results:
                     st["roundtrips"] += 1
                     st["paths"][path] = st["paths"].get(path, 0) + 1
-                    bad = judge(F, v, cls, reason, o)
+                    bad, consumer = verdict(F, v, cls, reason, path, o)
+                    if consumer:
+                        st["consumers"][consumer] = st["consumers"].get(consumer, 0) + 1
                     if bad:
                         fails.append({"format": F, "path": path, "code": bad[0], "detail": bad[1], "value": enc(v),
                                       "cls": cls, "reason": reason, "written": (o[1] or b"")[:400].hex()})
@@ -1046,18 +1095,6 @@ def value_task(t):
                     elif cls == "loose":
                         k = "%s:%s" % (reason, o[0])
                         st["loose_outcomes"][k] = st["loose_outcomes"].get(k, 0) + 1
-                    # independent reader on what was written (once per distinct spelling)
-                    if o[0] in ("ok", "rerr") and o[1] is not None and cls != "reject" and o[1] not in seen_written:
-                        seen_written.add(o[1])
-                        w = o[1]
-                        if F in ("csv", "tsv") and path != "filter" and w.endswith(b"\n"):
-                            w = w[:-1]
-                        consumer, issue = independent(F, v, cls, w)
-                        if consumer:
-                            st["consumers"][consumer] = st["consumers"].get(consumer, 0) + 1
-                        if issue:
-                            fails.append({"format": F, "path": path, "code": issue[0], "detail": issue[1],
-                                          "value": enc(v), "cls": cls, "reason": reason, "written": w[:400].hex()})
                 if len(st["samples"]) < 3 and rng.random() < 0.02 and out[0] == "ok":
                     st["samples"].append({"format": F, "value": show(v, 160), "class": cls,
                                           "written_by_filter": out[1][:160].decode("utf-8", "replace") if F != "cbor" else out[1][:80].hex(),
@@ -1070,49 +1107,60 @@ def value_task(t):
     return st
 
 
-def fail_pred(c, F, path, code):
-    """predicate for the minimiser: candidate is in the same class of the domain and fails
-    through the same path with the same failure class"""
-    def fails(cand, want_cls):
-        cls, reason = classify(F, cand)
-        if cls != want_cls:
-            return False
+def strip_row_end(F, path, w):
+    return w[:-1] if F in ("csv", "tsv") and path != "filter" and w.endswith(b"\n") else w
+
+
+def verdict(F, v, cls, reason, path, o):
+    """round-trip verdict, then (only if the round trip is fine) the independent reader's;
+    -> (issue or None, consumer or None)"""
+    bad = judge(F, v, cls, reason, o)
+    if bad or o[0] != "ok" or o[1] is None or cls == "reject" or (F == "toml" and cls != "in"):
+        return bad, None
+    consumer, issue = independent(F, v, cls, strip_row_end(F, path, o[1]))
+    return issue, consumer
+
+
+def fail_pred(c, F, path, code, want_cls, want_reason=None):
+    """for the minimiser: index of the first candidate that is in the same class of the domain
+    and fails through the same path with the same failure class"""
+    def first_failing(cands):
+        todo = []
+        for i, x in enumerate(cands):
+            cls, reason = classify(F, x)
+            if cls == want_cls and (want_reason is None or reason == want_reason):
+                todo.append((i, x, cls, reason))
+        if not todo:
+            return None
         try:
-            o = run_one(c, F, cand, path)
+            if path == "filter":
+                outs = via_filter(c, F, [x for _i, x, _c, _r in todo])
+            for j, (i, x, cls, reason) in enumerate(todo):
+                o = outs[j] if path == "filter" else run_one(c, F, x, path)
+                bad, _consumer = verdict(F, x, cls, reason, path, o)
+                if bad and bad[0] == code:
+                    return i
         except WorkerDied:
-            return False
-        if code.startswith("reader-"):
-            if o[0] not in ("ok", "rerr") or o[1] is None:
-                return False
-            w = o[1]
-            if F in ("csv", "tsv") and path != "filter" and w.endswith(b"\n"):
-                w = w[:-1]
-            _c, issue = independent(F, cand, cls, w)
-            return bool(issue) and issue[0] == code
-        bad = judge(F, cand, cls, reason, o)
-        return bool(bad) and bad[0] == code
-    return fails
+            return None
+        return None
+    return first_failing
 
 
 def shrink_task(f):
-    """minimise one failure; -> (key, witness)"""
+    """minimise one failure; -> (key, witness, unstable?)"""
     c = cl()
     F, path, code = f["format"], f["path"], f["code"]
     v = dec(f["value"])
-    pred = fail_pred(c, F, path, code)
     want = f["cls"]
-    if not pred(v, want):
+    pred = fail_pred(c, F, path, code, want, f["reason"] if want == "reject" else None)
+    if pred([v]) is None:
         return ("%s:unstable:%s" % (F, code), dict(f, note="failure did not reproduce in isolation"), True)
+    m = minimise(F, v, pred)
     if want == "reject":
         key = "%s:outside:%s" % (F, f["reason"])
-        m = minimise(F, v, lambda x: classify(F, x) == ("reject", f["reason"]) and pred(x, want), 300)
     else:
-        m = minimise(F, v, lambda x: pred(x, want))
-        what = "roundtrip" if not code.startswith("reader-") else "reader"
-        if code == "panic":
-            what = "panic"
-        if code == "key-order":
-            what = "key-order"
+        what = "reader" if code.startswith("reader-") else "panic" if code == "panic" else \
+            "key-order" if code == "key-order" else "roundtrip"
         key = canonical(F, what, m)
     o = run_one(c, F, m, path)
     wit = {"format": F, "path": path, "failure": code, "minimal_value": show(m, 400), "minimal_value_wire": enc(m),
@@ -1446,14 +1494,14 @@ def xml_judge(doc, o, canon0):
     if o[0] == "rejected":
         return None      # counted, not judged: the equation has no value on either side
     if o[0] in ("toxml-error", "reread-error"):
-        return (o[0], o[3])
+        return (o[0] + ":" + err_class(o[3]), o[3])
     _k, a, w, b = o
     if not (same(a, b) and same_order(a, b)):
         return ("differs", show(b, 300))
     try:
         canon1 = dom_canon(w)
     except Malformed as e:
-        return ("reader-rejects", str(e))
+        return ("reader-rejects:" + err_class(e), str(e))
     if canon1 != canon0:
         return ("reader-differs", canon1[1][:300])
     return None
@@ -1666,31 +1714,52 @@ def xml_shrink_task(f):
     path, code = f["path"], f["code"]
     doc = bytes.fromhex(f["doc"])
 
-    def fails(b):
+    def first_failing(docs):
+        todo = []
+        for i, b in enumerate(docs):
+            try:
+                todo.append((i, b, dom_canon(b)))
+            except Malformed:
+                pass
+        if not todo:
+            return None
         try:
-            canon0 = dom_canon(b)
-        except Malformed:
-            return False
-        try:
-            bad = xml_judge(b, xml_run(c, b, path), canon0)
+            outs = xml_filter(c, [b for _i, b, _k in todo]) if path == "filter" else None
+            for j, (i, b, canon0) in enumerate(todo):
+                bad = xml_judge(b, outs[j] if outs else xml_library(c, b), canon0)
+                if bad and bad[0] == code:
+                    return i
         except WorkerDied:
-            return False
-        return bool(bad) and bad[0] == code
+            return None
+        return None
+
+    def fails(b):
+        return first_failing([b]) is not None
     if not fails(doc):
         return ("xml:unstable:%s" % code, dict(f, spec=None, note="failure did not reproduce in isolation"), True)
     origin = f["origin"]
     if f.get("spec"):
         cur = f["spec"]
         steps = 0
-        progress = True
-        while progress and steps < 1500:
-            progress = False
+        seen = set()
+        while steps < 3000:
+            cands = []
             for cand in doc_reductions(cur):
-                steps += 1
-                if fails(render(cand).encode("utf-8")):
-                    cur = cand
-                    progress = True
+                r = render(cand)
+                if r not in seen:
+                    seen.add(r)
+                    cands.append((cand, r.encode("utf-8")))
+            hit = None
+            for lo in range(0, len(cands), 16):
+                chunk = cands[lo:lo + 16]
+                steps += len(chunk)
+                i = first_failing([b for _c, b in chunk])
+                if i is not None:
+                    hit = chunk[i][0]
                     break
+            if hit is None:
+                break
+            cur = hit
         m = render(cur)
         key = "xml:roundtrip:doc:" + json.dumps(m)
         mdoc = m.encode("utf-8")
@@ -1932,7 +2001,7 @@ def group_failures(fails):
             v = dec(f["value"])
             leaves = sorted({repr(freeze(x)) for x in walk(v) if not isinstance(x, (list, Obj)) and x != 0 and x != S("k") and x != S("a")})
             k = (f["format"], f["code"], f["reason"], tuple(leaves))
-            size = measure(v) + (0 if f["path"] == "filter" else 1,)
+            size = measure(v) + (1 if f["path"] == "filter" else 0,)
         if k not in groups or size < groups[k][0]:
             groups[k] = (size, f)
     return [f for _s, f in groups.values()]
@@ -1966,9 +2035,7 @@ def replay(run):
         for path in ["filter"] + [m[0] for m in MODES[F]]:
             n += 1
             o = run_one(c, F, v, path)
-            bad = judge(F, v, cls, reason, o)
-            if not bad and o[0] in ("ok", "rerr") and o[1] is not None and cls != "reject":
-                _c, bad = independent(F, v, cls, o[1][:-1] if F in ("csv", "tsv") and path != "filter" and o[1].endswith(b"\n") else o[1])
+            bad, _consumer = verdict(F, v, cls, reason, path, o)
             if bad:
                 run.violation(key, dict(wit, failure=bad[0], detail=bad[1], path=path))
     else:
@@ -2003,6 +2070,9 @@ def main():
     # big pool parts first
     tasks.sort(key=lambda t: 0 if t[1] == "pool" and t[0] == "yaml" else 1)
 
+    import time
+    phases = {}
+    t_phase = time.time()
     per = {}
     fails = []
     distinct = Distinct()
@@ -2039,6 +2109,8 @@ def main():
             samples.add(s)
         cli_items.setdefault(F, []).extend(st["cli_pick"])
 
+    phases["round_trips"] = round(time.time() - t_phase, 1)
+    t_phase = time.time()
     # ---- minimise failures, report under canonical keys
     reps = group_failures(fails)
     shrunk = 0
@@ -2050,10 +2122,12 @@ def main():
         else:
             run.violation(key, wit)
 
+    phases["minimise"] = round(time.time() - t_phase, 1)
+    t_phase = time.time()
     # ---- the real CLI on a sample
     rng = run.rng("cli")
-    ncli = {"yaml": run.size(260, 3000), "cbor": run.size(200, 2000), "toml": run.size(200, 2000), "csv": run.size(200, 2000),
-            "tsv": run.size(200, 2000), "xml": run.size(120, 1200)}
+    ncli = {"yaml": run.size(120, 3000), "cbor": run.size(80, 2000), "toml": run.size(80, 2000), "csv": run.size(80, 2000),
+            "tsv": run.size(80, 2000), "xml": run.size(60, 1200)}
     ctasks = []
     for F, items in sorted(cli_items.items()):
         items.sort(key=lambda it: json.dumps(it[0]) if not isinstance(it[0], str) else it[0])
@@ -2088,6 +2162,7 @@ def main():
         if not ok:
             run.violation("yaml:option:" + name, wit)
 
+    phases["cli"] = round(time.time() - t_phase, 1)
     evaluations = sum(p["roundtrips"] for p in per.values()) + sum(d["values"] for d in cli.values())
     consumers = {"filters(toF|fromF)": sum(p["paths"].get("filter", 0) for p in per.values()),
                  "library(write::write/read::parse)": sum(n for p in per.values() for k, n in p["paths"].items() if k != "filter"),
@@ -2118,6 +2193,7 @@ def main():
         "cli": cli,
         "yaml_indentation_options": opt,
         "consumers_exercised": consumers,
+        "phase_wall_s": phases,
         "failures_seen_before_grouping": len(fails),
         "failure_groups_minimised": shrunk,
         "yaml_independent_reader": "none available in this sandbox (no PyYAML/ruamel): well-formedness of jaq's YAML is judged "
